@@ -96,9 +96,9 @@ m = {
  "setup_cmd": "./setup.sh",
  "hooks": {
    "guard": "verif",
-   "enable": "no source hook exists in /repo: all seams are existing interfaces; db/fs is compiled against a simulated os/ioutil through `go build -overlay` with an AST-rewritten copy made from the current /repo/db/fs at check time (tools fsrewrite), /repo is never modified",
+   "enable": "build.sh compiles the simulator with `go build -tags verif`, which compiles one added file in /repo, db/postgres/verif_hook.go (a method VerifEnsureTable that calls the unexported table set-up step of Connect; the harness injects its connection with WithConnection and never goes through Connect). All other seams are existing interfaces; db/fs is compiled against a simulated os/ioutil through `go build -overlay` with an AST-rewritten copy made from the current /repo/db/fs at check time (tools fsrewrite), which does not modify /repo",
    "baseline_off_cmd": "cd /repo && GOFLAGS=-mod=mod GOPROXY=off GOSUMDB=off GOTOOLCHAIN=local go test -vet=off -count=1 ./...",
-   "source_commits": [],
+   "source_commits": ["53a3303"],
    "add_only": True,
  },
  "engines": [
